@@ -351,7 +351,7 @@ impl Ctx {
                 failure_persistence: None,
                 rng_algorithm: RngAlgorithm::ChaCha,
                 rng_seed: RngSeed::Fixed(seed),
-                max_shrink_iters: 4000,
+                max_shrink_iters: 20000,
                 max_global_rejects: 1 << 20,
                 max_local_rejects: 1 << 20,
                 ..Config::default()
